@@ -1,8 +1,212 @@
 import FtDriver.Json
+import FtDriver.C01
 open Lean (Json)
 namespace FtDriver
-open Ft
+open Ft Ft.C10
 
-def handleC10 (_j : Json) : Except String Verdict := throw "C10: not implemented"
+/-
+  C10 handler.  The harness ships the object graph of the REAL Python objects (addresses = object
+  identities renumbered, data = "Kind|scalar fields", ptrs = references to mutable objects):
+
+  value family  impl = {outcome, canonA0, canonA1 (id-free structural snapshot of the operand(s) before /
+                after the call), heap (graph reachable from operand roots `ra` and result roots `rb` after the
+                call), steps (follow-up mutations: side, kind, writes = objects whose record changed or that
+                were allocated, optional `mut` record for the C01 step model), final (graph after all steps)}
+  read family   impl = {outcome, g0, g1 (graph reachable from the operand roots before / after), roots}
+
+  Executable specification, evaluated here on the implementation's observation:
+    value:  canonA0 = canonA1  ∧  sepB ⟨heap, reach ra, reach rb⟩  ∧  validB … steps
+    read:   g0 = g1 (every object reachable from the operand, including the rank lists, has the same record)
+  Agreement (model = independent states): for both sides, the final real heap equals, on that side's
+  final set, the heap in which only that side's writes were replayed (`heap_frame_run`), and each modelled
+  follow-up mutation changes its own side's tree as the C01 step model says.
+-/
+namespace C10D
+
+def parseObjRow (j : Json) : Except String (Nat × Obj String) := do
+  match (← asList j) with
+  | [a, d, ps] => pure ((← a.getNat?), ⟨(← d.getStr?), (← (← asList ps).mapM (·.getNat?))⟩)
+  | _ => throw "C10: heap row must be [addr, data, ptrs]"
+
+def parseHeap (j : Json) : Except String (Heap String) := do (← asList j).mapM parseObjRow
+
+def asNats (j : Json) : Except String (List Nat) := do (← asList j).mapM (·.getNat?)
+
+def kindOf (d : String) : String := (d.splitOn "|").headD d
+
+def dedup (l : List String) : List String := l.foldl (fun acc s => if acc.contains s then acc else acc ++ [s]) []
+
+def insertSorted (s : String) : List String → List String
+  | [] => [s]
+  | x :: xs => if s < x then s :: x :: xs else x :: insertSorted s xs
+
+def sortStrs (l : List String) : List String := l.foldl (fun acc s => insertSorted s acc) []
+
+structure Follow where
+  side : Bool
+  k : String
+  writes : List (Nat × Obj String)
+  mutRec : Json
+
+def parseFollow (j : Json) : Except String Follow := do
+  let s ← fNat j "side"
+  let k ← fStr j "k"
+  let ws ← parseHeap (← field j "writes")
+  let m := (j.getObjVal? "mut").toOption.getD Json.null
+  pure { side := s == 1, k, writes := ws, mutRec := m }
+
+def stepsOf (fs : List Follow) : List (Step String) :=
+  fs.flatMap (fun f => f.writes.map (fun w => ({ side := f.side, addr := w.1, obj := w.2 } : Step String)))
+
+/-- index and description of the first write that violates the discipline -/
+def firstBad : St String → List (Follow) → Option String
+  | _, [] => none
+  | st, f :: fs =>
+    let rec go (st : St String) : List (Nat × Obj String) → St String × Option String
+      | [] => (st, none)
+      | w :: ws =>
+        let s : Step String := { side := f.side, addr := w.1, obj := w.2 }
+        if stepOkB st s then go (applyStep st s) ws
+        else
+          let other := st.mine (!f.side)
+          let what :=
+            if other.contains w.1 then s!"wrote {kindOf w.2.data} object #{w.1} of the other side"
+            else match w.2.ptrs.find? (fun p => other.contains p) with
+              | some p => s!"stored a reference to object #{p} of the other side into {kindOf w.2.data} #{w.1}"
+              | none => s!"wrote {kindOf w.2.data} #{w.1} outside its own side"
+          (st, some s!"follow-up {f.k} on the {if f.side then "result" else "operand"} side {what}")
+    match go st f.writes with
+    | (_, some e) => some e
+    | (st', none) => firstBad st' fs
+
+/-- the C01 step model on the mutated side's own tree: some true = agrees, some false = differs, none = not modelled -/
+def mstepCheck (m : Json) : Except String (Option Bool) := do
+  if m.isNull then return none
+  let D ← fNat m "d"
+  let dflt := fIntD m "dflt" 0
+  let opJ ← field m "op"
+  let before ← field m "before"
+  let after ← field m "after"
+  let outcome ← fStr m "outcome"
+  match D with
+  | 0 => return none
+  | d + 1 =>
+    match parseTree (d + 1) before with
+    | .error _ => return none
+    | .ok tb =>
+      if !(wfB (d + 1) tb) then return none
+      match (← parseMutOp dflt opJ) with
+      | none => return none
+      | some op =>
+        if !(outcome == "ok" || outcome == "rejected-order" || outcome == "rejected-index") then return none
+        let (mt, mo) := mstep dflt d tb op
+        if mo == .badPath then return none
+        match parseTree (d + 1) after with
+        | .error _ => return some false
+        | .ok ta => return some (treeEq (d + 1) mt ta && mo.toString == outcome)
+
+def strList (j : Json) : Except String (List String) := do (← asList j).mapM (·.getStr?)
+
+end C10D
+open C10D
+
+def handleC10 (j : Json) : Except String Verdict := do
+  let fam ← fStr j "fam"
+  let op ← fStr j "op"
+  let impl ← field j "impl"
+  let outcome ← fStr impl "outcome"
+  let baseTags := ["fam:" ++ fam, op]
+  if outcome.startsWith "skip" then
+    return { agree := true, spec := true, tags := ["OUT_OF_MODEL", outcome] }
+  if fam == "read" then
+    let g0 ← parseHeap (← field impl "g0")
+    let g1 ← parseHeap (← field impl "g1")
+    let same := decide (g0 = g1)
+    let why :=
+      if same then "" else
+        match g0.find? (fun e => get g1 e.1 != some e.2) with
+        | some e => s!"{op}: {kindOf e.2.data} object #{e.1} reachable from the operand changed: {e.2.data} -> " ++
+            (match get g1 e.1 with | some o => o.data ++ s!" ptrs {o.ptrs}" | none => "unreachable")
+        | none => s!"{op}: objects became reachable from the operand ({g1.length - g0.length} new)"
+    let errTag := if outcome == "ok" then [] else [outcome]
+    return { agree := true, spec := same, tags := baseTags ++ errTag ++ (if g0.length > 12 then ["big"] else []),
+             why, model := Json.mkObj [("objects", jNat g0.length)] }
+  -- value family
+  if outcome != "ok" then
+    -- an exception is an observation: the operand must still be untouched
+    let c0 ← strList (← field impl "canonA0")
+    let c1 ← strList (← field impl "canonA1")
+    let unch := decide (c0 = c1)
+    return { agree := true, spec := unch, tags := baseTags ++ [outcome],
+             why := if unch then "" else s!"{op}: raised {outcome} and left the operand changed" }
+  let c0 ← strList (← field impl "canonA0")
+  let c1 ← strList (← field impl "canonA1")
+  let unch := decide (c0 = c1)
+  let h0 ← parseHeap (← field impl "heap")
+  let ra ← asNats (← field impl "ra")
+  let rb ← asNats (← field impl "rb")
+  let fuel := h0.length + 2
+  let sa := reachList h0 fuel ra
+  let sb := reachList h0 fuel rb
+  let st0 : St String := { heap := h0, sa, sb }
+  -- the reach sets must be closed (fuel is not trusted) and contain their roots
+  if !(closedB h0 sa && closedB h0 sb && ra.all (sa.contains ·) && rb.all (sb.contains ·)) then
+    throw "C10: reach set not closed (driver fuel)"
+  let shared := sa.filter (fun a => sb.contains a)
+  let sep := sepB st0
+  let sharedKinds := sortStrs (dedup (shared.map (fun a => match get h0 a with | some o => kindOf o.data | none => "?")))
+  let follows ← (← fArr impl "steps").mapM parseFollow
+  let steps := stepsOf follows
+  let mut why := ""
+  if !unch then why := s!"{op}: the operand's structural snapshot differs after the call"
+  if !sep && why.isEmpty then
+    let first := match shared.head? with
+      | some a => (match get h0 a with | some o => s!"#{a} {o.data.take 60}" | none => s!"#{a}")
+      | none => ""
+    why := s!"{op}: alias: result shares {shared.length} object(s) with the operand, kinds={"+".intercalate sharedKinds} (first {first})"
+  let mut okSpec := unch && sep
+  let mut okAgree := true
+  let mut tags := baseTags
+  if !sep then tags := tags ++ ["shared:" ++ "+".intercalate sharedKinds]
+  if sep then
+    -- follow-up histories: discipline, then the frame theorem's conclusion on the real final heap
+    let valid := validB st0 steps
+    if !valid then
+      okSpec := false
+      if why.isEmpty then why := s!"{op}: " ++ ((firstBad st0 follows).getD "follow-up broke the discipline")
+    else
+      let fin := runAll st0 steps
+      let hfin ← parseHeap (← field impl "final")
+      -- objects that are still reachable at the end (dropped ones are garbage, nobody can observe them)
+      let dom := hfin.map (·.1)
+      if !(dom.all (fun x => fin.sa.contains x || fin.sb.contains x)) then
+        okAgree := false
+        if why.isEmpty then why := s!"{op}: an object reachable at the end belongs to neither side's set"
+      for s in [false, true] do
+        let mine := (fin.mine s).filter (fun x => dom.contains x)
+        if !(agreeOnB mine hfin (runOnly s h0 steps)) then
+          okAgree := false
+          if why.isEmpty then
+            why := s!"{op}: final heap differs from the independent state of the {if s then "result" else "operand"} side"
+      if !(agreeOnB dom hfin fin.heap) then
+        okAgree := false
+        if why.isEmpty then why := s!"{op}: writes do not reproduce the final heap"
+    if !follows.isEmpty then tags := tags ++ ["followups"]
+    if follows.any (·.side) && follows.any (!·.side) then tags := tags ++ ["both-sides"]
+  -- the mutated side itself behaves as the C01 step model says (independent model state per side)
+  let strict := match j.getObjVal? "mstrict" with | .ok (.bool b) => b | _ => false
+  for f in follows do
+    match (← mstepCheck f.mutRec) with
+    | none => pure ()
+    | some true => if !tags.contains "mstep-ok" then tags := tags ++ ["mstep-ok"]
+    | some false =>
+      if !tags.contains "mstep-diff" then tags := tags ++ ["mstep-diff"]
+      let stepStrict := match f.mutRec.getObjVal? "strict" with | .ok (.bool b) => b | _ => false
+      if strict && stepStrict then
+        okAgree := false
+        if why.isEmpty then why := s!"{op}: follow-up {f.k}: mutated side differs from the step model"
+  pure { agree := okAgree, spec := okSpec, tags, why,
+         model := Json.mkObj [("sa", jNat sa.length), ("sb", jNat sb.length), ("shared", jNat shared.length),
+                              ("writes", jNat steps.length)] }
 
 end FtDriver
